@@ -1,14 +1,16 @@
-"""C23 Term inspection: arg/3 (MachineState::try_arg), engine M."""
+"""C23 Term inspection: arg/3 and functor/3 (MachineState::try_arg, try_functor), engine M."""
 from vlib import mprop
 from vlib.mirsmt import c23
 
 ENCODED = ["MachineState::try_arg (all paths): the Str and Lis arms for both integer representations of N, "
-           "and the error mapping"]
+           "and the error mapping",
+           "MachineState::try_functor (all paths): inspection by cell kind, construction-mode errors and "
+           "outcomes; try_functor_unify_components"]
 ASSUME = ["Number::try_from, get_num, the usize conversion of a bignum cell, get_arity, heap_loc_as_cell! are "
           "uninterpreted (the value of N is whatever they return; C05 treats the two representations)",
           "unify_fn! unifies the pair it pushes on the pdl (C10 decides one step of that)"]
 BOUNDS = "every N, arity, location as 64-bit words"
-OUTSIDE = ("functor/3, =../2, copy_term/2, term_variables/2, ground/1, subsumes_term/2 (MachineState-wide "
+OUTSIDE = ("try_functor_fabricate_struct (heap writes), =../2, copy_term/2, term_variables/2, ground/1, subsumes_term/2 (MachineState-wide "
            "traversals / Prolog source), the partial-string arm of arg/3")
 
 
